@@ -523,6 +523,7 @@ Inductive label :=
 | LRead (e sid n : N)
 | LShutdown (e sid : N)
 | LDropStream (e sid : N)
+| LDropDeliver (e sid : N)   (* the handle is dropped and the next inbound message reaches the task in the same poll *)
 | LDeliver (d : N)
 | LSendDgram (e fid port : N) (host data : list N)
 | LGetDgram (e : N)
@@ -918,6 +919,34 @@ Definition step (s : sys) (l : label) : sys * lout :=
               (mkSys (f_ep f) (s_b s) (s_la s ++ f_out f) rest,
                mkLout [0] (sort (f_wakes f)) (f_out f) (f_closed f) [] false (f_done f))
           else (s, mkLout [1] [] [] false [] false [])
+      end
+  | LDropDeliver e sid =>
+      let f0 := start (get_ep s e) in
+      match live_stream (f_ep f0) sid with
+      | None => (s, mkLout R_NA [] [] false [] false [])
+      | Some (oid, st) =>
+          let f1 := with_ep f0 (put_stream (f_ep f0) oid (st_set_rpark (st_set_alive st false) false)) in
+          match (if e =? 0 then s_lb s else s_la s) with
+          | [] =>
+              let f := settle (task_dropped f1 (st_id st)) in
+              if e =? 0 then
+                (mkSys (f_ep f) (s_b s) (s_la s ++ f_out f) (s_lb s),
+                 mkLout [0; 3] (sort (f_wakes f)) (f_out f) (f_closed f) [] false (f_done f))
+              else
+                (mkSys (s_a s) (f_ep f) (s_la s) (s_lb s ++ f_out f),
+                 mkLout [0; 3] (sort (f_wakes f)) [] false (f_out f) (f_closed f) (f_done f))
+          | m :: rest =>
+              (* the receive arm of the task's biased select runs before the dropped-flows arm *)
+              let '(f2, consumed) := deliver f1 m in
+              let f := settle (task_dropped f2 (st_id st)) in
+              let res := [0; if consumed then 0 else 1] in
+              if e =? 0 then
+                (mkSys (f_ep f) (s_b s) (s_la s ++ f_out f) (if consumed then rest else s_lb s),
+                 mkLout res (sort (f_wakes f)) (f_out f) (f_closed f) [] false (f_done f))
+              else
+                (mkSys (s_a s) (f_ep f) (if consumed then rest else s_la s) (s_lb s ++ f_out f),
+                 mkLout res (sort (f_wakes f)) [] false (f_out f) (f_closed f) (f_done f))
+          end
       end
   | LSendDgram e fid port host data => on_ep s e (fun f => do_send_dgram f fid port host data)
   | LGetDgram e => on_ep s e do_get_dgram
